@@ -167,7 +167,7 @@ def tls_conn(case, seed):
     observed = 0
     for x in inits[:1]:
         # each comparison only when the decryptor exposes the attribute (an attribute that moved is unobservable, not wrong)
-        if x.get("bulk") is not None:
+        if x.get("bulk") in ("AES", "AESGCM", "AESCCM", "Camellia", "TripleDES", "IDEA", "ARC4", "ChaCha20Poly1305"):      # (a class of another vocabulary is unobservable, not wrong)
             observed += 1
             if x["bulk"] != e["cipher"]:
                 msgs.append(f"record decryptor constructed with bulk cipher {x['bulk']}, name denotes {e['cipher']}")
